@@ -324,6 +324,7 @@ inline bool apply_op(GridState &st, const Op &op) {
         st.n_refine++; break; }
     case OP_REF_ANISO: {
         if (st.constructing || outs == 0 || g.getNumLoaded() == 0 || !st.aniso_capable()) return false;
+        if (!st.dict_valid) return false;   // anisotropy estimated from arbitrary (non-decaying) coefficients requests astronomically large grids
         int out = std::min(op.output, outs - 1); if (st.spec.family == F_GLOBAL) out = std::max(out, 0);
         { // hyperbolic contours with (partly) saturated level limits need up to (k+1)^(w_max/w_min) passes of the level loop, each O(level):
           // it terminates but not within any test budget, so the shape is not generated (see DESIGN, "performance pathologies")
@@ -357,7 +358,7 @@ inline bool apply_op(GridState &st, const Op &op) {
         if (st.spec.family == F_LOCALP || st.spec.family == F_WAVE) {
             st.candidates = g.getCandidateConstructionPoints(op.tol, op.crit, out, op.limits);
             t << "Candidates(tol=" << op.tol << "," << refine_name(op.crit) << ",out=" << out << lim_text(op.limits) << ")";
-        } else if (op.variant == 0 || !st.aniso_capable() || g.getNumLoaded() == 0) {
+        } else if (op.variant == 0 || !st.aniso_capable() || g.getNumLoaded() == 0 || !st.dict_valid) {
             st.candidates = g.getCandidateConstructionPoints(op.type, op.aw, op.limits);
             t << "Candidates(" << type_name(op.type) << ",aw=[" << join(op.aw) << "]" << lim_text(op.limits) << ")";
         } else {
